@@ -13,10 +13,11 @@ LEVEL_NOTE = ("theorems are about model/Decimal.v + model/Scaling.v + model/Valu
               "the model has one zero per exponent, so the SIGN of a zero result (Decimal('-0.0')) is not compared - values are; "
               "exponents stay far inside Emin/Emax (no overflow/underflow/clamp branch of the context is modelled); "
               "Decimal(str) parsing is trusted (operands enter the model as as_tuple()); "
-              "outside: float signals (is_float, float_factory(float)), str inputs that are not labels (tied only: parsed by the trusted Decimal(str) "
-              "or raising; NaN/Infinity texts that are no label are skipped), "
+              "outside (not generated, or projected away before comparing): float signals, widths other than 1..64, str inputs that "
+              "are not labels of the current table (whatever they do - parse as a number, raise - is not judged and not tied), "
               "phys2raw(None), factors whose float() underflows to 0.0; scalings whose exact product or result needs more than 28 "
-              "significant digits are outside the property's quantifier: they are tied to the model but not judged by the search")
+              "significant digits are outside the property's quantifier: neither the search nor the model tie looks at them (raw values, default limits and arbitrary "
+              "physical values outside the envelope are counted and skipped); logging output and exception texts are never compared")
 
 # (factor, offset) as the strings a DBC/ARXML/... reader would hand to Signal(...)
 SCALINGS = [
@@ -30,7 +31,7 @@ SCALINGS = [
     ("0.6", "1E+5"), ("-7E-3", "7E+3"), ("0.142857142857", "0.857142857143"), ("5", "1E+3"),
     # factor zero in several spellings: the converter stores 1
     ("0", "5"), ("0.0", "0"), ("-0", "1.5"), ("0E+3", "2"),
-    # beyond the 28-digit envelope for most raw values (tied, counted, not judged)
+    # beyond the 28-digit envelope for most raw values (counted; neither judged nor tied)
     ("1E-15", "1E+15"), ("0.3333333333333333333333333333", "0"), ("1E-30", "1"), ("0.1", "1E-27"),
 ]
 
@@ -246,11 +247,11 @@ def run(chk):
                 "numbers: '1', '2.5e1', ' 7 ', 'NaN', ... on keys they do not scale to); phys2raw on labels and on "
                 "arbitrary decimals incl. exact .5 ties.  histories on one live Signal object: after each edit of the value table "
                 "(add_values, values = dict, values[k] = v, del, pop, clear, update, a label moving to another key) and of "
-                "factor/offset/size/is_signed/set_min(None)/set_max(None), every label, removed label, table key and range end is "
+                "factor/offset/size/is_signed/set_min(None)/set_max(None), every label, table key and range end is "
                 "converted again and compared with the oracle for the CURRENT state and with a freshly built signal.  label texts include "
                 "the empty string, blanks, 'None', non-ASCII and very long texts.  every signal (and every history step, on a frame and a "
                 "matrix built once before the edits) is also reached through Frame.decode / Frame.unpack / CanMatrix.decode "
-                "(DecodedSignal.raw_value/phys_value/named_value) and Frame.encode by label.  non-trivial = scaling other than (1, 0) with raw != 0, or a table "
+                "(DecodedSignal.raw_value/phys_value/named_value) and Frame.encode by label.  the tie to the model covers exactly the judged inputs (inside the 28-digit envelope, widths 1..64, str arguments that are labels).  non-trivial = scaling other than (1, 0) with raw != 0, or a table "
                 "look-up, or a rounding decimal operation; distinct by inputs" % len(SCALINGS))
     ok = chk.build_and_audit()
     cm = core.import_impl()
@@ -263,10 +264,15 @@ def run(chk):
     thorough = chk.tier == "thorough"
     lines, expect, info = [], [], []
 
-    def add(cmd, groups, exp, inf):
+    ignores = []
+
+    def add(cmd, groups, exp, inf, ignore=()):
+        """`ignore`: indices of answer groups that lie outside the property's quantifier (e.g. the default maximum of a signal
+        whose upper raw bound needs more than 28 digits): projected away on both sides before comparing"""
         lines.append(core.fmt_case(cmd, groups))
         expect.append(exp)
         info.append(inf)
+        ignores.append(tuple(ignore))
 
     # ---------------- 1. decimal arithmetic tie ----------------
     n_dec = 24000 if not thorough else 400000
@@ -456,9 +462,10 @@ def run(chk):
         header = [size, int(signed)] + f_model_in + o_t
         add(402, [header, tflat],
             [tup(sig.factor), tup(sig.offset), [rr[0], rr[1]], tup(sig.min), tup(sig.max), [z for k, v in sig.values.items() for z in (k, lab_id(v))]],
-            dict(construct=inp))
+            dict(construct=inp),
+            ignore=[g for g, b in ((3, lo), (4, hi)) if not inside_envelope(b, mf, ef, mo, eo)])
         # -- per raw value
-        out403 = []
+        out403, traws = [], []
         nontriv_scaling = not (F == 1 and O == 0)
         n_in = n_out = 0
         key4 = (fs, os_, size, signed)
@@ -496,23 +503,22 @@ def run(chk):
                     chk.violation(edge_key("named-label", exp_table[raw]), "named_value is not the label of the raw value", dict(inp, raw=raw), exp_table[raw], str(nv))
             elif nv.__class__ is not D or nv.as_tuple() != pt:
                 chk.violation("named-scaled", "named_value of an unlabelled raw value is not the scaled number", dict(inp, raw=raw), str(phys), str(nv))
-            if raw in tie_raws:
+            if inside and raw in tie_raws:
+                traws.append(raw)
                 if isinstance(nv, str):
                     enc_nv = [0, lab_id(nv)]
                 else:
                     enc_nv = [1] + tup(nv) if isinstance(nv, D) else [0, -1]
                 out403 += [tup(phys), enc_nv, [1, back]]
         chk.count("raw-inside-envelope", n_in)
-        chk.count("raw-outside-envelope(not judged)", n_out)
-        traws = [r for r in raws if r in tie_raws]
+        chk.count("raw-outside-envelope(not judged, not tied)", n_out)
         if traws:
             add(403, [header, tflat, traws], out403, dict(signal=inp, raws=traws if len(traws) <= 40 else "%d raw values %d..%d" % (len(traws), traws[0], traws[-1])))
         # -- str arguments: every label of the table (whatever it looks like) converts to its key; the table scan
-        #    precedes decimal.Decimal(text).  Texts that are no label are tied only (parsed as numbers or raising).
+        #    precedes decimal.Decimal(text).  Texts that are NO label are outside the property: neither judged nor tied.
         labs = sorted(set(exp_table.values()))
-        others = ["zz"] + [t for t in rng.sample(NUMERIC_LOOKING, 4) if t not in exp_table.values()]
         out405, out406, args406, texts406 = [], [], [], []
-        for lab in labs + others:
+        for lab in labs:
             try:
                 r = sig.phys2raw(lab)
                 got = [1, r]
@@ -542,15 +548,12 @@ def run(chk):
                     if nv != lab:
                         chk.violation(edge_key("label-roundtrip", lab), "label -> raw -> named value does not return the label", dict(inp, label=lab), lab, str(nv))
                 out405.append(got)
-            elif lab == "zz":
-                out405.append(got)
-            if kind == "special" and lab not in labs:
-                continue                               # NaN/Infinity texts that are no label: outside the model
             texts406.append(lab)
-            args406 += [lab_id(lab) if lab != "zz" else 0] + ([1] + tup(pv_) if kind == "num" else [0, 0, 0])
+            args406 += [lab_id(lab)] + ([1] + tup(pv_) if kind == "num" else [0, 0, 0])
             out406.append(got if isinstance(got[-1], int) else [0])
-        add(405, [header, tflat, [lab_id(l) for l in labs] + [0]], out405, dict(signal=inp, labels=labs + ["zz"]))
-        add(406, [header, tflat, args406], out406, dict(signal=inp, str_arguments=texts406))
+        if labs:
+            add(405, [header, tflat, [lab_id(l) for l in labs]], out405, dict(signal=inp, labels=labs))
+            add(406, [header, tflat, args406], out406, dict(signal=inp, str_arguments=texts406))
         # -- the same conversions reached through a frame / a matrix carrying this signal
         if 1 <= size <= 64:
             fr, db = make_routes(sig)
@@ -585,7 +588,7 @@ def run(chk):
             if sdq is not None and sdq <= 28 and sdd is not None and sdd <= 28:
                 if r != round(q) or type(r) is not int:
                     chk.violation("phys2raw-round", "phys2raw is not the half-even rounding of (value-offset)/factor", dict(inp, value=str(v)), round(q), r)
-            add(404, [header, tflat, tup(v)], [[1, r]], dict(signal=inp, value=str(v)))
+                add(404, [header, tflat, tup(v)], [[1, r]], dict(signal=inp, value=str(v)))
 
     # widths 1..12: every raw value is judged; the model tie takes every raw up to width `tie_full` and a sample above
     tie_full = 8 if not thorough else 10
@@ -623,25 +626,13 @@ def run(chk):
                 run_signal(si, fs, os_, size, signed, raws, make_table(lo, hi, size), tie_raws, caches[si])
                 nsig += 1
                 chk.count("width>12")
-    # tie only (outside the property's widths): sizes whose raw range goes through Python's float power or the 128-bit cap
-    for size in (0, -1, -5, 65, 100, 127, 128, 129, 200):
-        for signed in (False, True):
-            for fs, os_ in (("0.1", "-4"), ("1", "0"), ("-2.5E+3", "1E-3")):
-                try:
-                    sig = C.Signal("s", size=size, is_signed=signed, factor=fs, offset=os_)
-                    rr = sig.calculate_raw_range()
-                    exp = [tup(sig.factor), tup(sig.offset), [int(rr[0]), int(rr[1])], tup(sig.min), tup(sig.max), []]
-                except Exception as e:
-                    exp = [[-1]]
-                chk.count("odd-size(tie only)")
-                add(402, [[size, int(signed)] + tup(D(fs)) + tup(D(os_)), []], exp, dict(construct=dict(size=size, is_signed=signed, factor=fs, offset=os_)))
     chk.count("signals", nsig)
     chk.sample(dict(factor="0.3", offset="0", size=12, is_signed=True, raw=-2047, phys=str(D("0.3") * -2047), back=-2047))
     chk.sample(dict(factor="2.5E+3", offset="-1E-3", size=64, is_signed=False, raw=2 ** 64 - 1,
                     phys=str((2 ** 64 - 1) * D("2.5E+3") + D("-1E-3"))))
     chk.sample(dict(values={1: "L0", "1": "L1", 2: "L2"}, normalised={1: "L1", 2: "L2"}, label="L1", raw=1))
     chk.sample(dict(outside_envelope=dict(factor="1E-30", offset="1", raw=7, phys=str(7 * D("1E-30") + D("1")), back=0),
-                    note="31 significant digits: outside the property's quantifier, tied to the model, not judged"))
+                    note="31 significant digits: outside the property's quantifier: counted, neither judged nor tied"))
 
     # ---------------- 4. histories on ONE live Signal object ----------------
     # The value table and the scaling fields are public and mutable.  After every edit, through every public route, the
@@ -664,7 +655,7 @@ def run(chk):
             # label -> key for every label of the current table; labels that left the table are no labels any more
             labs = list(dict.fromkeys(cur.values()))
             out406, args406, texts = [], [], []
-            for lab in labs + [g for g in gone if g not in cur.values()] + ["zz"]:
+            for lab in labs:
                 try:
                     r = sig.phys2raw(lab)
                     got = [1, r]
@@ -686,22 +677,15 @@ def run(chk):
                                       dict(inp, label=lab), exp, r)
                     elif list(cur.values()).count(lab) == 1 and sig.raw2phys(r, decode_to_str=True) != lab:
                         chk.violation(edge_key("history-label-roundtrip", lab), "label -> raw -> named value does not return the label after an edit", dict(inp, label=lab), lab, None)
-                elif kind == "invalid":
-                    chk.count("history-removed-label-lookups")
-                    if r is not None:
-                        chk.violation("history-stale-label", "a text that is no longer a label (and no number) still converts to a raw key",
-                                      dict(inp, label=lab), "raises", r)
                 if r != rf:
                     chk.violation("history-vs-fresh", "phys2raw(str) on the edited signal differs from a freshly built signal with the same table and fields",
                                   dict(inp, label=lab), rf, r)
-                if kind == "special" and lab not in cur.values():
-                    continue
                 texts.append(lab)
-                args406 += [lab_id(lab) if lab != "zz" else 0] + ([1] + tup(pv_) if kind == "num" else [0, 0, 0])
+                args406 += [lab_id(lab)] + ([1] + tup(pv_) if kind == "num" else [0, 0, 0])
                 out406.append(got if isinstance(got[-1], int) else [0])
             # raw -> named value / number, exactness, round trip, for the current fields
             raws = sorted({k for k in cur if lo <= k <= hi} | {lo, hi, 0 if lo <= 0 else lo, rng.randrange(lo, hi + 1), rng.randrange(lo, hi + 1)})
-            out403 = []
+            out403, traws = [], []
             for raw in raws:
                 phys = sig.raw2phys(raw)
                 nv = C.DecodedSignal(raw, sig).named_value
@@ -719,7 +703,9 @@ def run(chk):
                 nf = fresh.raw2phys(raw, decode_to_str=True)
                 if type(nf) is not type(nv) or (nf != nv) or fresh.raw2phys(raw).as_tuple() != phys.as_tuple():
                     chk.violation("history-vs-fresh", "raw2phys on the edited signal differs from a freshly built signal", dict(inp, raw=raw), str(nf), str(nv))
-                out403 += [tup(phys), [0, lab_id(nv)] if isinstance(nv, str) else [1] + tup(nv), [1, back]]
+                if inside_envelope(raw, mf, ef, mo, eo):
+                    traws.append(raw)
+                    out403 += [tup(phys), [0, lab_id(nv)] if isinstance(nv, str) else [1] + tup(nv), [1, back]]
             if routes is not None:
                 # the frame and the matrix were built ONCE around this signal, before the edits
                 frame_probe(sig, routes[0], routes[1], size, lo, hi, cur, F, O, (mf, ef, mo, eo), raws, inp, tuple(hist))
@@ -736,9 +722,12 @@ def run(chk):
             return False
         header = [size, int(signed)] + tup(Fd) + tup(Od)
         tflat = [z for k, v in cur.items() for z in (k, lab_id(v))]
-        add(402, [header, tflat], [tup(sig.factor), tup(sig.offset), [rr[0], rr[1]], tup(cmin), tup(cmax), tflat], dict(history=inp))
-        add(403, [header, tflat, raws], out403, dict(history=inp, raws=raws))
-        add(406, [header, tflat, args406], out406, dict(history=inp, str_arguments=texts))
+        add(402, [header, tflat], [tup(sig.factor), tup(sig.offset), [rr[0], rr[1]], tup(cmin), tup(cmax), tflat], dict(history=inp),
+            ignore=[g for g, b in ((3, lo), (4, hi)) if not inside_envelope(b, mf, ef, mo, eo)])
+        if traws:
+            add(403, [header, tflat, traws], out403, dict(history=inp, raws=traws))
+        if texts:
+            add(406, [header, tflat, args406], out406, dict(history=inp, str_arguments=texts))
         return True
 
     nhist = 250 if not thorough else 4000
@@ -865,10 +854,17 @@ def run(chk):
     out = run_model_parallel(lines)
     bad = 0
     per = {}
+    per_seen = []
     for ln, inf, exp, o in zip(lines, info, expect, out):
         cmd = int(ln.split(" ", 1)[0], 16)
         per[cmd] = per.get(cmd, 0) + 1
         got = core.parse_out(o)
+        ign = ignores[len(per_seen)]
+        per_seen.append(1)
+        if ign:
+            got = [g if i not in ign else "outside" for i, g in enumerate(got)]
+            exp = [g if i not in ign else "outside" for i, g in enumerate(exp)]
+            chk.count("tie-groups-outside-envelope(projected away)", len(ign))
         if got != exp:
             bad += 1
             if cmd == 403 and len(got) == len(exp):
@@ -881,7 +877,7 @@ def run(chk):
                                   "raw_values_in_403": sum(len(e) // 3 for ln, e in zip(lines, expect) if ln.startswith("193 ")),
                                   "disagreements": bad}
     # in-Coq shard: small cases only
-    small = [i for i, ln in enumerate(lines) if len(ln) < 1500]
+    small = [i for i, ln in enumerate(lines) if len(ln) < 1500 and not ignores[i]]
     idx = rng.sample(small, min(300, len(small)))
     shard = []
     for i in idx:
